@@ -113,34 +113,65 @@ func ruleMirror(p *Program, r *Result) {
 				ctor = call
 			}
 		}
-		if ctor == nil {
-			r.bad("R-MIRROR", key+":header-built", pos, "the reply header is not built by NewHeader(options...) in Reply")
-			continue
-		}
-		opts, ok := optionsOfCtor(ctor)
-		if !ok {
-			r.undecided("R-MIRROR", key+":header-built", p.Pos(ctor.Pos()), "the reply header's option list is not an inline list of SetHeaderX(...) calls")
-			continue
-		}
 		got := map[string]ssa.Value{}
 		badOpt := ""
-		for _, o := range opts {
-			setter, _ := o[0].(*ssa.Function)
-			f, ok := optionSetsField(setter)
-			if !ok {
-				badOpt = fmt.Sprintf("%s is not a plain 'store the argument into one header field' option (it ignores, clamps or conditions its argument)", fnKey(setter))
+		var opts [][2]ssa.Value
+		var hdrVal ssa.Value
+		if ctor == nil {
+			// the header written as a literal: &Header{Version: ..., Type: ..., ...}, each field stored once
+			lit := headerLiteralIn(fn)
+			if lit == nil {
+				r.bad("R-MIRROR", key+":header-built", pos, "the reply header is not built by NewHeader(options...) or a Header literal in Reply")
 				continue
 			}
-			got[f] = o[1]
+			okLit := true
+			for _, rf := range refsOf(lit) {
+				fa, isFA := rf.(*ssa.FieldAddr)
+				if !isFA {
+					continue
+				}
+				for _, r2 := range refsOf(fa) {
+					if st, isSt := r2.(*ssa.Store); isSt && st.Addr == ssa.Value(fa) {
+						if _, dup := got[fieldName(fa)]; dup {
+							okLit = false
+						}
+						got[fieldName(fa)] = st.Val
+					}
+				}
+			}
+			if !okLit {
+				r.bad("R-MIRROR", key+":header-built", p.Pos(lit.Pos()), "a field of the reply header literal is stored more than once")
+				continue
+			}
+			hdrVal = lit
+			pos = p.Pos(lit.Pos())
+		} else {
+			var ok bool
+			opts, ok = optionsOfCtor(ctor)
+			if !ok {
+				r.undecided("R-MIRROR", key+":header-built", p.Pos(ctor.Pos()), "the reply header's option list is not an inline list of SetHeaderX(...) calls")
+				continue
+			}
+			for _, o := range opts {
+				setter, _ := o[0].(*ssa.Function)
+				f, ok := optionSetsField(setter)
+				if !ok {
+					badOpt = fmt.Sprintf("%s is not a plain 'store the argument into one header field' option (it ignores, clamps or conditions its argument)", fnKey(setter))
+					continue
+				}
+				got[f] = o[1]
+			}
+			pos = p.Pos(ctor.Pos())
+			hdrVal = ctor
 		}
 		if badOpt != "" {
-			r.bad("R-MIRROR", key+":options-are-plain-setters", p.Pos(ctor.Pos()), "%s: the reply header can differ from what Reply computed (e.g. a sequence number of 256 silently becoming the default 1)", badOpt)
+			r.bad("R-MIRROR", key+":options-are-plain-setters", pos, "%s: the reply header can differ from what Reply computed (e.g. a sequence number of 256 silently becoming the default 1)", badOpt)
 		} else {
-			r.ok("R-MIRROR", key+":options-are-plain-setters", p.Pos(ctor.Pos()), true, "each of the %d header options used by Reply stores its argument, unconditionally, into the header field of the same name", len(opts))
+			r.ok("R-MIRROR", key+":options-are-plain-setters", pos, true, "each of the %d header options used by Reply stores its argument, unconditionally, into the header field of the same name", len(opts))
 		}
 		for _, f := range []string{"Version", "Type", "Flags", "SessionID"} {
 			v, ok := got[f]
-			r.cond(ok && isStored(v, f), "R-MIRROR", key+":mirror:"+f, p.Pos(ctor.Pos()),
+			r.cond(ok && isStored(v, f), "R-MIRROR", key+":mirror:"+f, pos,
 				"the reply's "+f+" is a copy of the stored request header's "+f,
 				"the reply's "+f+" is not copied from the stored request header")
 		}
@@ -149,13 +180,28 @@ func ruleMirror(p *Program, r *Result) {
 			names = append(names, k)
 		}
 		sort.Strings(names)
-		r.cond(strings.Join(names, ",") == "Flags,SeqNo,SessionID,Type,Version", "R-MIRROR", key+":mirror:field-set", p.Pos(ctor.Pos()),
+		r.cond(strings.Join(names, ",") == "Flags,SeqNo,SessionID,Type,Version", "R-MIRROR", key+":mirror:field-set", pos,
 			"Reply sets exactly Version, Type, SeqNo, Flags and SessionID (Length is set by the writer)",
 			"Reply sets the header fields ["+strings.Join(names, ",")+"], expected exactly Version, Type, SeqNo, Flags, SessionID")
 		// M2: sequence number
 		seqOK := false
 		why := "SetHeaderSeqNo is not given 'stored sequence + 1, or 1 for an authentication RESTART'"
 		if sv, ok := got["SeqNo"]; ok {
+			// a conversion to the field's own type (what the setter does too) is not a narrowing below the field
+			for {
+				cv, isCv := sv.(*ssa.Convert)
+				if !isCv {
+					if ct, isCt := sv.(*ssa.ChangeType); isCt {
+						sv = ct.X
+						continue
+					}
+					break
+				}
+				if p.Sizes.Sizeof(cv.Type()) < 2 {
+					break
+				}
+				sv = cv.X
+			}
 			okAll := true
 			nPlus, nOne := 0, 0
 			var srcs []ssa.Value
@@ -194,7 +240,7 @@ func ruleMirror(p *Program, r *Result) {
 			}
 			seqOK = okAll && nPlus >= 1 && nOne <= 1
 		}
-		r.cond(seqOK, "R-MIRROR", key+":sequence", p.Pos(ctor.Pos()),
+		r.cond(seqOK, "R-MIRROR", key+":sequence", pos,
 			"the reply's sequence number is the stored one + 1 (computed at int width, so 255+1 = 256 does not wrap), or the constant 1 exactly under Status == AuthenStatusRestart",
 			why)
 		// SetHeaderSeqNo stores at a width that keeps 256
@@ -213,7 +259,7 @@ func ruleMirror(p *Program, r *Result) {
 				}
 				f, base, ok := fieldAddrOf(st.Addr)
 				if ok && base == ssa.Value(recv) && typeIs(f.Type(), modPath, "Header") {
-					if u, ok := st.Val.(*ssa.UnOp); ok && u.Op == token.MUL && u.X == ssa.Value(ctor) {
+					if u, ok := st.Val.(*ssa.UnOp); ok && u.Op == token.MUL && u.X == hdrVal {
 						hdrStore = st
 					}
 				}
@@ -224,10 +270,11 @@ func ruleMirror(p *Program, r *Result) {
 		nWrites := 0
 		for _, c := range allCalls(fn) {
 			f := c.Common().StaticCallee()
-			if f == nil || f.Name() != "Write" || f.Signature.Recv() == nil || len(c.Common().Args) != 2 {
+			if f == nil || f.Signature.Recv() == nil || len(c.Common().Args) != 2 {
 				continue
 			}
-			if c.Common().Args[0] == ssa.Value(recv) || containsFn(p.Roles().Writers, f) {
+			// the response's own Write, or the stream writer called directly
+			if (f.Name() == "Write" && c.Common().Args[0] == ssa.Value(recv)) || containsFn(p.Roles().Writers, f) {
 				write = c
 				nWrites++
 			}
@@ -248,7 +295,7 @@ func ruleMirror(p *Program, r *Result) {
 					}
 					switch s.Name() {
 					case "SetPacketHeader":
-						hOK = o[1] == ssa.Value(ctor)
+						hOK = o[1] == hdrVal
 					case "SetPacketBody":
 						if mc, idx, ok := extractOf(o[1]); ok && idx == 0 && mc.Common().IsInvoke() && mc.Common().Value == ssa.Value(body) && mc.Common().Method.Name() == "MarshalBinary" {
 							bOK = true
@@ -460,4 +507,23 @@ func narrowsOnTheWay(v ssa.Value, dst types.Type) bool {
 			return false
 		}
 	}
+}
+
+// headerLiteralIn: the one heap-allocated Header literal of fn (the reply header written as &Header{...}).
+func headerLiteralIn(fn *ssa.Function) *ssa.Alloc {
+	var lit *ssa.Alloc
+	for _, b := range fn.Blocks {
+		for _, in := range b.Instrs {
+			if a, ok := in.(*ssa.Alloc); ok && a.Heap && typeIs(a.Type().(*types.Pointer).Elem(), modPath, "Header") {
+				if _, named := a.Type().(*types.Pointer).Elem().(*types.Named); !named {
+					continue
+				}
+				if lit != nil {
+					return nil
+				}
+				lit = a
+			}
+		}
+	}
+	return lit
 }
